@@ -1,12 +1,15 @@
 /-
-  IQE.Lemmas.Bag — the reusable bag (multiset-as-`List.Perm`) algebra of DESIGN §4.5:
+  IQE.Lemmas.Bag — the reusable bag (multiset-as-`List.Perm`) algebra of DESIGN §4.5 (namespace `IQE.Bag`):
   filter / map / flatMap / nested-loop product are `Perm`-congruent and distribute over `++`;
   loops commute; partition-by-any-function then concatenate is a permutation; batching (any
   chunking) then concatenating is the identity; `Spec.groupBy` is characterised in closed form
   (first-appearance keys × filtered rows) and therefore respects permutation up to group order.
+  Second part (namespace `IQE.Lemmas.Bag`, written by the C01 owner): `Spec.subBag` / `Spec.bagEq`
+  characterised by multiplicities and by `List.Perm`.
   Core `List.Perm` only — no Mathlib.
 -/
 import IQE.Spec.Query
+import IQE.Spec.Acceptable
 namespace IQE.Bag
 open List
 
@@ -48,13 +51,11 @@ theorem flatMap_append_body (l : List α) (f g : α → List β) :
   | nil => simp
   | cons a l ih =>
     simp only [flatMap_cons]
-    -- (f a ++ g a) ++ rest ~ (f a ++ F) ++ (g a ++ G)
     have h1 : (f a ++ g a) ++ flatMap (fun a => f a ++ g a) l ~ (f a ++ g a) ++ (flatMap f l ++ flatMap g l) :=
       (Perm.refl _).append ih
     refine h1.trans ?_
     simp only [append_assoc]
     refine (Perm.refl (f a)).append ?_
-    -- g a ++ (F ++ G) ~ F ++ (g a ++ G)
     rw [← append_assoc, ← append_assoc]
     exact perm_append_comm.append (Perm.refl _)
 
@@ -110,7 +111,6 @@ theorem map_filter_eq_filterMap (p : β → Bool) (f : β → γ) (l : List β) 
 theorem pairs_swap (m : α → β → Bool) (ls : List α) (rs : List β) :
     pairs m ls rs ~ (pairs (fun r l => m l r) rs ls).map fun p => (p.2, p.1) := by
   unfold pairs
-  -- write both sides as double flatMaps over singletons
   have e1 : ∀ l : α, (rs.filter (m l)).map (fun r => (l, r)) =
       rs.flatMap (fun r => if m l r then [(l, r)] else []) := by
     intro l
@@ -142,7 +142,6 @@ theorem partition_perm [DecidableEq κ] (key : α → κ) (ks : List κ) (hnd : 
   | cons a l ih =>
     have ih' := ih fun b hb => hcov b (by simp [hb])
     have hk : key a ∈ ks := hcov a (by simp)
-    -- the bucket of `a` gets `a` in front, every other bucket is unchanged
     have body : ∀ k ∈ ks, (a :: l).filter (fun b => key b = k) =
         (if key a = k then [a] else []) ++ l.filter (fun b => key b = k) := by
       intro k _; by_cases h : key a = k <;> simp [h]
@@ -468,3 +467,72 @@ theorem filterMapM_ok {ε : Type} (f : α → Except ε (Option β)) (g : α →
     cases hg : g a <;> simp [hg] <;> rfl
 
 end IQE.Bag
+
+/-! ## `Spec.subBag` / `Spec.bagEq` by multiplicities and `List.Perm` (C01) -/
+
+namespace IQE.Lemmas.Bag
+open IQE IQE.Spec
+
+theorem removeFirst_eq_erase (r : Row) (t : Table) : removeFirst r t = t.erase r := by
+  induction t with
+  | nil => rfl
+  | cons x xs ih =>
+    simp only [removeFirst, List.erase_cons]
+    by_cases h : x = r
+    · subst h; simp
+    · have : (x == r) = false := by simpa using h
+      simp [h, this, ih]
+
+theorem subBag_iff_count (a b : Table) : subBag a b = true ↔ ∀ x, a.count x ≤ b.count x := by
+  induction a generalizing b with
+  | nil => simp [subBag]
+  | cons y ys ih =>
+    simp only [subBag, Bool.and_eq_true, ih, removeFirst_eq_erase, List.contains_iff_mem, List.count_erase, List.count_cons]
+    constructor
+    · rintro ⟨hm, h⟩ x
+      have := h x
+      have hp : 0 < b.count y := List.count_pos_iff.mpr hm
+      by_cases hx : y = x
+      · subst hx; simp at this ⊢; omega
+      · have : (y == x) = false := by simpa using hx
+        have h2 : (x == y) = false := by simpa using (fun e => hx e.symm)
+        simp_all
+    · intro h
+      have hy := h y
+      simp at hy
+      have hm : y ∈ b := List.count_pos_iff.mp (by omega)
+      refine ⟨hm, fun x => ?_⟩
+      have := h x
+      by_cases hx : y = x
+      · subst hx; simp at this ⊢; omega
+      · have h1 : (y == x) = false := by simpa using hx
+        have h2 : (x == y) = false := by simpa using (fun e => hx e.symm)
+        simp_all
+
+theorem subBag_refl (a : Table) : subBag a a = true := (subBag_iff_count a a).mpr (fun _ => Nat.le_refl _)
+
+theorem bagEq_refl (a : Table) : bagEq a a = true := by simp [bagEq, subBag_refl]
+
+theorem perm_of_bagEq (a b : Table) (h : bagEq a b = true) : a.Perm b := by
+  induction a generalizing b with
+  | nil =>
+    simp [bagEq, subBag] at h
+    have : b = [] := List.eq_nil_of_length_eq_zero h.symm
+    subst this; exact List.Perm.refl _
+  | cons y ys ih =>
+    simp only [bagEq, subBag, Bool.and_eq_true, beq_iff_eq, List.length_cons, removeFirst_eq_erase, List.contains_iff_mem] at h
+    obtain ⟨hl, hm, hs⟩ := h
+    have hlen : (b.erase y).length = ys.length := by rw [List.length_erase_of_mem hm]; omega
+    have : ys.Perm (b.erase y) := ih _ (by simp [bagEq, hs, hlen])
+    exact (List.Perm.cons y this).trans (List.perm_cons_erase hm).symm
+
+theorem bagEq_of_perm (a b : Table) (h : a.Perm b) : bagEq a b = true := by
+  simp only [bagEq, Bool.and_eq_true, beq_iff_eq]
+  exact ⟨h.length_eq, (subBag_iff_count a b).mpr (fun x => Nat.le_of_eq (h.count_eq x))⟩
+
+theorem bagEq_iff_perm (a b : Table) : bagEq a b = true ↔ a.Perm b := ⟨perm_of_bagEq a b, bagEq_of_perm a b⟩
+
+theorem subBag_of_sublist (a b : Table) (h : a.Sublist b) : subBag a b = true :=
+  (subBag_iff_count a b).mpr (fun _ => h.count_le _)
+
+end IQE.Lemmas.Bag
